@@ -312,7 +312,7 @@ static int cif_container_get_item_loop_internal (
             case SQLITE_DONE:
                 FAIL(soft, CIF_NOSUCH_ITEM);
             case SQLITE_ROW:
-                GET_COLUMN_STRING(cif->get_item_loop_stmt, 1, loop->category, soft_fail);
+                GET_COLUMN_STRING(cif->get_item_loop_stmt, 1, loop->category, hard_fail);
                 loop->loop_num = sqlite3_column_int(cif->get_item_loop_stmt, 0);
 
                 /* verify that there was only one result row */
@@ -328,6 +328,8 @@ static int cif_container_get_item_loop_internal (
         }
     }  /* else fall-through / fail */
 
+    /* the statement must not be left in the middle of its results */
+    FAILURE_HANDLER(hard):
     DROP_STMT(cif, get_item_loop);
 
     FAILURE_HANDLER(soft):
